@@ -38,7 +38,7 @@ COMPONENTS = {
     "real": ["SciPyOptimizer (caches, _fun/_jac, NormalizedConstraints, option parsing)", "EnsembleOptimizer callback", "EnsembleEvaluator"],
     "stub": ["FakeSciPy (scipy.optimize.minimize / differential_evolution)", "simwrap recording wrapper", "SimEvaluator", "sim/inject sampler"],
 }
-PROBES = ["ensemble_with_failed_perturbations", "values_compared", "constraint_first_at_new_point", "jacobian_first_at_new_point", "gradient_first_at_new_point",
+PROBES = ["evaluator_level_clauses_checked", "ensemble_with_failed_perturbations", "values_compared", "constraint_first_at_new_point", "jacobian_first_at_new_point", "gradient_first_at_new_point",
           "repeat_same_point", "population_request", "speculative", "split", "speculative_twin_compared", "gradient_free_method",
           "callback_invocations", "linear_rows_in_script", "shape_change"]
 
@@ -228,7 +228,11 @@ def _compare_log(ctx, cfg, viol, probes):
 
 
 def execute(scn: dict) -> dict:
-    ctx = harness.run_scenario(scn)
+    def _setup(ctx_):
+        ctx_.call_stamps = {}
+        ctx_.evaluator.pre_hooks.append(lambda ev, k: ctx_.call_stamps.__setitem__(k, ctx_.fake.next_seq()))
+
+    ctx = harness.run_scenario(scn, setup=_setup)
     viol: list[dict] = []
     probes: dict[str, int] = {}
 
@@ -283,6 +287,49 @@ def execute(scn: dict) -> dict:
                     viol.append({"clause": "quantity-evaluated-twice-for-current-point", "sig": {"kind": kind},
                                  "detail": f"callback invocation {i}: {kind} requested again for the current point {np.round(rec['x'], 4).tolist()}"})
                 run_kinds.add(kind)
+    # the same two clauses at the level of the evaluations actually made (an evaluation = one evaluator call):
+    # with split_evaluations no evaluator call carries unperturbed and perturbed rows together, and the ensemble
+    # functions of the current point are not run a second time
+    if split:
+        for c in ctx.evaluator.calls:
+            if c.kind == "fg":
+                viol.append({"clause": "split-evaluation-computes-both", "sig": {"level": "evaluator"},
+                             "detail": f"evaluator call {c.k} carries unperturbed and perturbed rows although split_evaluations is on "
+                                       f"(requests so far: {[(r['q'], r.get('k')) for r in ctx.fake.log][:6]})"})
+                break
+    if method != DE:
+        prevc = None
+        stamps = getattr(ctx, "call_stamps", {})
+        reqs = sorted((r["seq"], r["x"]) for r in ctx.fake.log)
+        last_req_x = None
+        ri = 0
+        for c in ctx.evaluator.calls:
+            # requests issued before this evaluator call: the algorithm moving to another point ends the run at a point
+            while ri < len(reqs) and reqs[ri][0] < stamps.get(c.k, float("inf")):
+                if last_req_x is not None and not _same_point(last_req_x, reqs[ri][1]):
+                    prevc = None
+                last_req_x = reqs[ri][1]
+                ri += 1
+            if c.perturbations is None:
+                has_f = True
+                xrow = c.variables[0]
+            else:
+                unp = np.where(np.asarray(c.perturbations) < 0)[0]
+                has_f = unp.size > 0
+                xrow = c.variables[unp[0]] if has_f else None
+            if has_f:
+                if prevc is not None and np.array_equal(prevc, xrow):
+                    probe("function_rows_repeat_checked")
+                    viol.append({"clause": "quantity-evaluated-twice-for-current-point", "sig": {"kind": "functions", "level": "evaluator"},
+                                 "detail": f"evaluator call {c.k} ({c.kind}) runs the unperturbed ensemble at {np.round(xrow, 4).tolist()} again, "
+                                           f"right after an evaluation that already ran it there"})
+                    break
+                prevc = np.array(xrow, copy=True)
+            else:
+                # a gradient-only evaluation at another point than the last function evaluation ends the run at that point
+                if prevc is not None and c.variables.shape[1] == prevc.shape[0]:
+                    pass
+        probe("evaluator_level_clauses_checked")
     if method in NOGRAD or method == DE:
         if any(c.kind in ("g", "fg") for c in ctx.evaluator.calls):
             viol.append({"clause": "gradient-free-method-evaluates-gradients", "sig": {"speculative": spec},
